@@ -217,6 +217,25 @@ def run(tier, seed, replay=None):
                     chk.nontrivial.add(("latin1", k))
             except Exception as ex:
                 chk.violation({"scenario": "latin1"}, f"rescan of an edited non-UTF-8 file raised {type(ex).__name__}: {ex}")
+        # ---- edits that change white space only (blank lines in front, at the end, inside; trailing spaces; line ends): the
+        #      bytes differ, so nothing cached may be reused, and line numbers move (seeded change C04-27: checksum of the
+        #      text with surrounding white space stripped)
+        for k, (what, after) in enumerate(F.whitespace_edits()):
+            for direction, (b0, b1) in (("applied", (F.WS_BASE, after)), ("undone", (after, F.WS_BASE))):
+                try:
+                    wc, nc = F.edit_scenario(_tmp, f"{k}{direction}", b0, b1)
+                    chk.evaluations += 1
+                    chk.count("white-space-only edit between two scans")
+                    if wc != nc:
+                        pos = lambda r: [(m["unit_name"], m["start"]["line"], m["start"]["column"], m["end"]["line"], m["end"]["column"], m["value"])
+                                         for m in r["codebase"]["files"].get("pkg/mod.py", {}).get("measurements", [])]
+                        chk.violation({"file": "pkg/mod.py", "before": b0.decode("latin-1"), "after": b1.decode("latin-1")},
+                                      f"edit '{what}' {direction} between two scans: the scan with the cache reports {pos(wc)}, "
+                                      f"a from-scratch scan {pos(nc)}")
+                    else:
+                        chk.nontrivial.add(("ws", k, direction))
+                except Exception as ex:
+                    chk.violation({"scenario": "white space", "edit": what}, f"rescan after a white-space-only edit raised {type(ex).__name__}: {ex}")
     finally:
         shutil.rmtree(_tmp, ignore_errors=True)
     alpha = op_alphabet()
